@@ -4,10 +4,12 @@ from common import *
 import prio
 
 
-def free_all(sc, binary, tier):
+def free_all(sc, binary, tier, owner_busy=False):
     sub = os.path.join(sc, "freeall")
     os.makedirs(sub, exist_ok=True)
     env = dict(OUT_DIR=sub, FREE_RUNS=80 if tier == "quick" else 4000, FREE_SECONDS=12 if tier == "quick" else 120)
+    if owner_busy:   # the owner of the options map keeps using it from its own goroutine (C20)
+        env["MAP_OWNER"] = "busy"
     rc, out, wall = run_test(binary, "TestFreeV2$|TestFreeV1$|TestFreeSimple$", env=env, timeout=1200)
     counts = {}
     for name, pat in (("v2", r"FREE runs=(\d+)"), ("v1", r"FREEV1 runs=(\d+)"), ("simple", r"FREESIMPLE runs=(\d+)")):
@@ -131,7 +133,7 @@ def check_C20(tier):
     with Scratch("c20") as sc:
         binary = os.path.join(sc, "prioh.test")
         build_test("prioh", binary, race=True)
-        fsub, ffiles, counts, out = free_all(sc, binary, tier)
+        fsub, ffiles, counts, out = free_all(sc, binary, tier, owner_busy=True)
         reports = race_reports(out)
         total_runs = sum(counts.values())
         # model-generated schedules under the race detector as well
